@@ -168,18 +168,19 @@ End Pick.
 
 (* ---- rend ---- *)
 Section Rend.
-  (* Memoer.sign(vid, ser) as the 88 char qb64 signature text *)
+  (* Memoer.sign(vid, ser) as the 88 char qb64 signature text (before the
+     conversion to base2 when .curt) *)
   Variable sign : bytes -> bytes -> bytes.
 
   Record rparams := { r_code : code;        (* zeroth code, in Zedex *)
                       r_curt : bool;
-                      r_size : nat;         (* .size, already max(size, zoz + 1) *)
+                      r_size : nat;         (* .size as set by the size setter: >= zoz + 1 *)
                       r_mid : bytes;        (* 24 chars from makeMID *)
-                      r_vid : bytes }.      (* 44 chars or [] *)
+                      r_vid : bytes }.      (* 44 chars, or [] when not signing *)
 
   Definition zoz (p : rparams) : nat :=
     let o := (32 + vz (r_code p) + az (r_code p))%nat in if r_curt p then b2z o else o.
-  (* noz is NOT scaled when curt (as in the code) *)
+  (* the non-zeroth overhead is NOT reduced when .curt (as in the code) *)
   Definition noz (p : rparams) : nat := (32 + vz (pair_of (r_code p)) + az (pair_of (r_code p)))%nat.
   Definition zbz (p : rparams) : nat := (r_size p - zoz p)%nat.
   Definition nbz (p : rparams) : nat := (r_size p - noz p)%nat.
@@ -195,7 +196,8 @@ Section Rend.
     let g := head ++ body in
     if auth c then g ++ cvt p (sign (r_vid p) g) else g.
 
-  (* the while loop over the rest of the memo after the zeroth gram *)
+  (* the while loop over the rest of the memo after the zeroth gram; fuel =
+     number of bytes left (every turn removes nbz >= 1 bytes) *)
   Fixpoint rend_rest (fuel : nat) (p : rparams) (gn : N) (memo : bytes) : list bytes :=
     match fuel with
     | O => []
@@ -207,19 +209,22 @@ Section Rend.
       end
     end.
 
-  (* gc = ceil((ml + nbz - zbz) / nbz) on Python ints (true division then ceil;
-     exact for the sizes considered) *)
-  Definition gcount (p : rparams) (ml : nat) : Z :=
+  (* gc = max(1, ceil((ml + nbz - zbz) / nbz)) *)
+  Definition gcount (p : rparams) (ml : nat) : N :=
     let num := (Z.of_nat ml + Z.of_nat (nbz p) - Z.of_nat (zbz p))%Z in
-    let d := Z.of_nat (nbz p) in
-    (- ((- num) / d))%Z.
+    Z.to_N (Z.max 1 (- ((- num) / Z.of_nat (nbz p))))%Z.
 
-  Definition rend (p : rparams) (memo : bytes) : list bytes :=
+  Definition rend (p : rparams) (memo : bytes) : res (list bytes) :=
+    if Nat.ltb 0 (vz (r_code p)) && negb (Nat.eqb (length (r_vid p)) 44) then Exc MemoErr else
+    if negb (Nat.eqb (length (r_mid p)) 24) then Exc MemoErr else
+    if Nat.ltb (r_size p) (noz p) then Exc MemoErr      (* nbz < 0: max memo size negative *)
+    else if Nat.eqb (r_size p) (noz p) then Exc OtherErr  (* nbz = 0: ZeroDivisionError *)
+    else
     match memo with
-    | [] => []
+    | [] => Ok []
     | _ =>
-      gram_of p (r_code p) (Z.to_N (gcount p (length memo))) (Nat.ltb 0 (vz (r_code p)))
-              (firstn (zbz p) memo)
-      :: rend_rest (length memo) p 1 (skipn (zbz p) memo)
+      Ok (gram_of p (r_code p) (gcount p (length memo)) (Nat.ltb 0 (vz (r_code p)))
+                  (firstn (zbz p) memo)
+          :: rend_rest (length memo) p 1 (skipn (zbz p) memo))
     end.
 End Rend.
